@@ -374,6 +374,13 @@ def r6_lock_held_during_body(chk: Check):
     c10.r4_lock_type(chk)
 
 
+def r7_running_or_queued_is_adopted(chk: Check):
+    """A job whose process exists (running, or queued by a batch launcher) is adopted, not launched again (= C11.R2 adoption decision)"""
+    from . import c11
+
+    c11.r2_adoption_decision(chk)
+
+
 RULES = [
     ("R1", "registry de-duplication: decision table of aio_registerJob; aio_submit scheduled only for a new registration; duplicate submit returns the first output; same object twice raises", r1_registry),
     ("R2", "success-marker short-circuit: every path to aio_start tests the marker (true edge stores DONE), re-tested after every await that precedes the start loop; loop guarded by not finished", r2_marker_shortcircuit),
@@ -381,4 +388,5 @@ RULES = [
     ("R4", "task side: body after all lock files are acquired (blocking), only if the success marker - read under the lock - is absent; the generated script lists job.lockpath", r4_task_side),
     ("R6", "the run locks are descriptor-based and every acquired lock object is kept in self.locks for the whole body (= C10.R4)", r6_lock_held_during_body),
     ("R5", "the only writer of the success marker is TaskRunner.run's SystemExit handler under code == 0, and nothing in the package removes or replaces it", r5_marker_writers),
+    ("R7", "a job whose process exists (running or queued) is adopted rather than launched again: adoption decision table of aio_process (= C11.R2)", r7_running_or_queued_is_adopted),
 ]
